@@ -68,9 +68,9 @@ Proof.
   { intros e2 H2. unfold Inv13. cbn [with_agg cur agg]. apply Forall_aset; [exact H2|exact HI]. }
   destruct (assemble_total (esigs e1) (P_sigs _ _ He1) (keys g) 0) as [sg Ha]. rewrite Ha.
   destruct (our_vaa e1) as [v|]; [|repeat split; [apply Hkeep; exact He1|constructor]].
-  destruct ((go_quorum (Z.of_nat (length (keys g))) <=? Z.of_nat (length sg)) && negb (submitted e1)) eqn:Eq;
+  destruct (proc_local_quorum_reached (go_quorum (Z.of_nat (length (keys g)))) (Z.of_nat (length sg)) && negb (submitted e1)) eqn:Eq;
     [|repeat split; [apply Hkeep; exact He1|constructor]].
-  apply andb_prop in Eq as [Eq _]. apply Z.leb_le in Eq.
+  apply andb_prop in Eq as [Eq _]. apply local_quorum_reached_iff in Eq.
   destruct sg as [|s0 sg'].
   { exfalso. pose proof (go_quorum_pos (Z.of_nat (length (keys g))) ltac:(lia)). cbn [length] in Eq. lia. }
   cbn [fst snd cur]. repeat split.
@@ -147,7 +147,7 @@ Proof.
     destruct (cur st) as [g|] eqn:Ec; [|split; [exact HI|constructor]].
     destruct (length (keys g) =? 0)%nat; [split; [exact HI|constructor]|].
     destruct (length (sigs v) =? 0)%nat; [split; [exact HI|constructor]|].
-    destruct (_ <? _); [split; [exact HI|constructor]|].
+    destruct (proc_inbound_below_quorum _ _); [split; [exact HI|constructor]|].
     destruct (verify_sigs _ _ _ _); cbn [negb]; [|split; [exact HI|constructor]].
     destruct (dlookup _ _); [split; [exact HI|constructor]|].
     cbn [fst snd]. split; [|repeat constructor]. unfold Inv13 in *. cbn [cur agg]. rewrite Ec in HI. exact HI.
